@@ -75,9 +75,16 @@ def gen_cases(ctx):
     cases = []
     for cls in sem.CLASSES:
         n = sem.NPOS[cls]
-        for pat, special in [(p_, sp) for p_ in patterns(cls) for sp in (False, True)]:
+        for pat, special in [(p_, sp) for p_ in patterns(cls) for sp in (False, True, "wide")]:
             labels = rng.sample(range(-40, 400), n)
-            if special:
+            if special == "wide":
+                # database-style keys: neighbouring integers beyond 2**53 (not representable as distinct doubles), around
+                # the int64 / uint64 limits, mixed with small and negative ids
+                base = rng.choice([10**16, 2**53, 2**62, 2**63 - 2, 2**63, 2**64 - 4, 2**64, 10**30])
+                k = rng.randint(2, n)
+                labels = [base + j for j in range(k)] + rng.sample(range(-40, 400), n - k)
+                rng.shuffle(labels)
+            elif special:
                 # ids that double as sentinels in careless code: 0 (falsy) and -1 ("not found" / "no atom")
                 pos = rng.sample(range(n), 2)
                 labels = [x for x in labels if x not in (0, -1, -2)] + rng.sample(range(400, 500), 3)
